@@ -4,6 +4,7 @@ import (
 	"fmt"
 	"go/token"
 	"go/types"
+	"sort"
 	"strconv"
 	"strings"
 
@@ -14,7 +15,7 @@ import (
 )
 
 func init() {
-	reg(&core.RuleInfo{Name: "TX-1", Props: []string{"C14"}, Engine: "CFG", Floor: 1, Confirmed: 1,
+	reg(&core.RuleInfo{Name: "TX-1", Props: []string{"C14", "C06"}, Engine: "CFG", Floor: 1, Confirmed: 1,
 		Doc: "deferred closure right after BeginTx: rollback on error, commit otherwise", Run: runTx1})
 	reg(&core.RuleInfo{Name: "TX-2", Props: []string{"C14"}, Engine: "PROV", Floor: 5, Confirmed: 6,
 		Doc: "inside the transaction only tx-prepared statements are executed", Run: runTx2})
@@ -24,7 +25,7 @@ func init() {
 		Doc: "dependent inserts guarded by RowsAffected != 0; tombstones idempotent", Run: runTx4})
 	reg(&core.RuleInfo{Name: "TX-BATCH", Props: []string{"C14"}, Engine: "CG", Floor: 1, Confirmed: 2,
 		Doc: "a batch reaches the transaction function whole: no caller splits it over several transactions", Run: runTxBatch})
-	reg(&core.RuleInfo{Name: "BATCH-ALL", Props: []string{"C06", "C14"}, Engine: "CFG", Floor: 1, Confirmed: 1,
+	reg(&core.RuleInfo{Name: "BATCH-ALL", Props: []string{"C06", "C14", "C05"}, Engine: "CFG", Floor: 1, Confirmed: 1,
 		Doc: "an event of a batch is skipped only for the recognised reasons (not stored kind, unencodable)", Run: runBatchAll})
 	reg(&core.RuleInfo{Name: "TX-5", Props: []string{"C14", "C06"}, Engine: "PROV", Floor: 2, Confirmed: 3,
 		Doc: "the hash seed returned is the seed persisted; the handler's seed comes only from there", Run: runTx5})
@@ -167,11 +168,82 @@ func runTx1(c *core.Ctx) {
 						if st, ok := r.(*ssa.Store); ok && an.ResolveAlloc(st.Addr) == slot {
 							okCm = true
 						}
+						// … wrapped: `if cmErr := tx.Commit(); cmErr != nil { err = fmt.Errorf("…: %w", cmErr) }` —
+						// behind the failed-commit test the result is set to an error that cannot be nil
+						if bo, ok := r.(*ssa.BinOp); ok && an.IsNilConst(bo.Y) && (bo.Op == token.NEQ || bo.Op == token.EQL) {
+							an.Instrs(cl, func(in ssa.Instruction) {
+								st, isSt := in.(*ssa.Store)
+								if !isSt || an.ResolveAlloc(st.Addr) != slot || !definitelyError(st.Val) {
+									return
+								}
+								for _, g2 := range an.Guards(cl, st.Block()) {
+									if g2.V == ssa.Value(bo) && g2.True == (bo.Op == token.NEQ) {
+										okCm = true
+									}
+								}
+							})
+						}
 					}
 				}
 			}
 		}
 	}
+	// what the transaction function itself puts into the named result once the transaction is open is the
+	// failure of a step of this transaction — not a report made before it began (`return skipped`, the
+	// second result of the row builder): the closure would roll back a batch whose statements all succeeded
+	an.Instrs(fn, func(in ssa.Instruction) {
+		st, ok := in.(*ssa.Store)
+		if !ok || an.ResolveAlloc(st.Addr) != slot || !an.InstrDominates(d, st) {
+			return
+		}
+		var leaves []ssa.Instruction
+		var walk func(v ssa.Value, depth int)
+		walk = func(v ssa.Value, depth int) {
+			if depth > 5 {
+				return
+			}
+			switch x := v.(type) {
+			case *ssa.Extract:
+				if call, isC := x.Tuple.(*ssa.Call); isC {
+					leaves = append(leaves, call)
+				}
+			case *ssa.Phi:
+				for _, e := range x.Edges {
+					walk(e, depth+1)
+				}
+			case *ssa.ChangeInterface:
+				walk(x.X, depth+1)
+			case *ssa.Call:
+				n := an.CalleeName(&x.Call)
+				if n == "fmt.Errorf" || n == "errors.Join" {
+					leaves = append(leaves, x) // (made where this call stands)
+					args := x.Call.Args
+					if n == "fmt.Errorf" {
+						args = args[1:]
+					}
+					for _, a := range args {
+						if elems, okE := an.VariadicElems(a); okE {
+							for _, el := range elems {
+								if ci, isCI := el.(*ssa.ChangeInterface); isCI {
+									walk(ci.X, depth+1)
+								} else {
+									walk(el, depth+1)
+								}
+							}
+						}
+					}
+					return
+				}
+				leaves = append(leaves, x)
+			}
+		}
+		walk(st.Val, 0)
+		for _, li := range leaves {
+			if li.Parent() == fn && !an.InstrDominates(d, li) {
+				problems = append(problems, "the named result is set to "+clip(an.PathOf(st.Val), 60)+" ("+P.Pos(st.Pos())+"), computed before the transaction was opened: a batch whose statements all succeeded returns it non-nil and is rolled back")
+			}
+		}
+	})
 	if !okRb {
 		problems = append(problems, "Rollback is not called on the 'named result != nil' edge of this transaction")
 	}
@@ -278,6 +350,7 @@ func runTx3(c *core.Ctx) {
 	c.CountFuncs(1)
 	// the error of a call is propagated: tested, and the failing edge returns a non-nil error
 	// from the function the call sits in
+	var propagatedRec func(host *ssa.Function, call *ssa.Call) bool
 	propagated := func(host *ssa.Function, call *ssa.Call) bool {
 		var errV ssa.Value
 		if tup, isTuple := call.Type().(*types.Tuple); isTuple {
@@ -320,6 +393,31 @@ func runTx3(c *core.Ctx) {
 				}
 			}
 		})
+		// gathered: `_, err := stmt.Exec(…); errs.add("tags", err)` … `if err := errs.join(); err != nil { return … }`
+		if !good && errV.Referrers() != nil {
+			for _, r := range *errV.Referrers() {
+				add, isCall := r.(*ssa.Call)
+				if !isCall {
+					continue
+				}
+				if join := collectorJoin(host, add, errV); join != nil && propagatedRec(host, join) {
+					// no successful way out between the gathering and the test of what was gathered
+					escapes := false
+					for _, rb := range an.ReturnBlocks(host) {
+						rv := an.ReturnValues(an.LastInstr(rb).(*ssa.Return))
+						if len(rv) == 0 || !an.IsNilConst(rv[len(rv)-1]) {
+							continue
+						}
+						if rb != join.Block() && an.Reachable(add.Block(), rb, nil, map[*ssa.BasicBlock]bool{join.Block(): true}) {
+							escapes = true
+						}
+					}
+					if !escapes {
+						good = true
+					}
+				}
+			}
+		}
 		// `return helper(...)`: the error is handed on as it is
 		if !good {
 			for _, rb := range an.ReturnBlocks(host) {
@@ -331,6 +429,7 @@ func runTx3(c *core.Ctx) {
 		}
 		return good
 	}
+	propagatedRec = propagated
 	an.Region(fn, nil, func(o an.Occ) {
 		call, ok := o.In.(*ssa.Call)
 		if !ok {
@@ -914,6 +1013,15 @@ func runBatchAll(c *core.Ctx) {
 			if b, isBin := cd.V.(*ssa.BinOp); isBin && an.IsNilConst(b.Y) && (b.Op == token.EQL) == cd.True && strings.HasSuffix(cp, "[*] == const:nil)") && typeNameOf(b.X.Type()) == "Event" {
 				reason = true
 			}
+			// no storage key, told as an error with a reason (`case errors.Is(err, errEphemeralEvent): continue`,
+			// err being what the key function returned)
+			if ic, isC := cd.V.(*ssa.Call); isC && cd.True && an.CalleeName(&ic.Call) == "errors.Is" && len(ic.Call.Args) == 2 {
+				if ex, isEx := ic.Call.Args[0].(*ssa.Extract); isEx {
+					if kc, isKC := ex.Tuple.(*ssa.Call); isKC && strings.Contains(an.CalleeName(&kc.Call), "getEventKey") {
+						reason = true
+					}
+				}
+			}
 			// a builder failed
 			if b, isBin := cd.V.(*ssa.BinOp); isBin && an.IsNilConst(b.Y) && (b.Op == token.NEQ) == cd.True {
 				if ex, isEx := b.X.(*ssa.Extract); isEx {
@@ -926,6 +1034,59 @@ func runBatchAll(c *core.Ctx) {
 		if !reason {
 			bad = append(bad, strings.Join(why, " ∧ "))
 		}
+	}
+	// … and a row builder fails only over the event's own fields: an error it hands out is the error of
+	// one call made once per event (a failed decode of the id, the pubkey, the signature; a failed
+	// marshal), never something gathered or met while walking the event's tags — one malformed
+	// reference would then leave the whole event (a deletion request and its other references) out
+	builders := map[*ssa.Function]bool{}
+	for _, p := range paths {
+		if len(p) < 2 || !loop[p[1]] || p[len(p)-1] != h || p.Contains(emit) {
+			continue
+		}
+		for _, cd := range p.Conds() {
+			cd = an.NormCond(cd)
+			b, isBin := cd.V.(*ssa.BinOp)
+			if !isBin || !an.IsNilConst(b.Y) || (b.Op == token.NEQ) != cd.True {
+				continue
+			}
+			if ex, isEx := b.X.(*ssa.Extract); isEx {
+				if call, isCall := ex.Tuple.(*ssa.Call); isCall && types.Identical(ex.Type(), types.Universe.Lookup("error").Type()) {
+					if g := an.StaticCallee(&call.Call); g != nil && P.InModule(g) && len(g.Blocks) > 0 {
+						builders[g] = true
+					}
+				}
+			}
+		}
+	}
+	var gs []*ssa.Function
+	for g := range builders {
+		gs = append(gs, g)
+	}
+	sort.Slice(gs, func(i, j int) bool { return gs[i].Pos() < gs[j].Pos() })
+	for _, g := range gs {
+		c.CountFuncs(1)
+		var probs []string
+		for _, rb := range an.ReturnBlocks(g) {
+			rvs := an.ReturnValues(an.LastInstr(rb).(*ssa.Return))
+			if len(rvs) == 0 {
+				continue
+			}
+			e := rvs[len(rvs)-1]
+			if !types.Identical(e.Type(), types.Universe.Lookup("error").Type()) {
+				continue
+			}
+			if why := perEventError(g, e, 0); why != "" {
+				probs = append(probs, why+" at "+P.Pos(an.LastInstr(rb).Pos()))
+			}
+		}
+		var bprops []string
+		if strings.Contains(an.ShortName(g), "Deleted") {
+			// (the builders of the tombstone rows: a deletion request left out is C05's concern too)
+			bprops = []string{"C05", "C06", "C14"}
+		}
+		c.Check(len(probs) == 0, bprops, fname(c, g), "builder-error", P.Pos(g.Pos()), "the builder fails only with the error of a step made once per event",
+			"a row builder whose failure leaves the event out of the batch can fail over a single tag: "+strings.Join(uniq(probs), "; ")+" — one malformed reference and the whole event (a deletion request with its other references) is not stored")
 	}
 	c.CountPaths(len(paths))
 	c.Check(len(bad) == 0 && nskip > 0, nil, fname(c, fn), "skips", P.Pos(fn.Pos()), fmt.Sprintf("all %d ways an event contributes no rows: it has no storage key, or a row builder failed", nskip),
@@ -1280,4 +1441,202 @@ func seedFromLoader(fn *ssa.Function, v ssa.Value, rb *ssa.BasicBlock) bool {
 		}
 	}
 	return n > 0
+}
+
+// perEventError: "" when the error value e of builder g is nil or made (possibly wrapped) from the
+// error results of calls executed at most once per call of g; otherwise what it is made from.
+func perEventError(g *ssa.Function, e ssa.Value, depth int) string {
+	if depth > 6 {
+		return "an error of unknown origin"
+	}
+	switch x := e.(type) {
+	case *ssa.Const:
+		return ""
+	case *ssa.Phi:
+		for _, ed := range x.Edges {
+			if why := perEventError(g, ed, depth+1); why != "" {
+				return why
+			}
+		}
+		return ""
+	case *ssa.Extract:
+		if call, ok := x.Tuple.(*ssa.Call); ok {
+			if an.InLoop(call.Block()) {
+				return "the error of " + an.CalleeName(&call.Call) + ", called once per tag"
+			}
+			return ""
+		}
+	case *ssa.MakeInterface:
+		return ""
+	case *ssa.UnOp:
+		if x.Op == token.MUL {
+			// one of the package's error variables, handed out outside the tag loop
+			if _, isG := x.X.(*ssa.Global); isG {
+				if an.InLoop(x.Block()) {
+					return "a sentinel error returned from inside the tag loop"
+				}
+				return ""
+			}
+			if a := an.ResolveAlloc(x.X); a != nil {
+				for _, st := range an.StoresTo(a) {
+					if why := perEventError(g, st.Val, depth+1); why != "" {
+						return why
+					}
+				}
+				return ""
+			}
+		}
+	case *ssa.Call:
+		name := an.CalleeName(&x.Call)
+		switch name {
+		case "fmt.Errorf", "errors.Join":
+			args := x.Call.Args
+			if name == "fmt.Errorf" {
+				args = args[1:]
+			}
+			for _, a := range args {
+				elems, ok := an.VariadicElems(a)
+				if !ok {
+					return "errors gathered in " + clip(an.PathOf(a), 40)
+				}
+				for _, el := range elems {
+					if mi, isMI := el.(*ssa.MakeInterface); isMI {
+						el = mi.X
+					}
+					if ci, isCI := el.(*ssa.ChangeInterface); isCI {
+						el = ci.X
+					}
+					if !types.Identical(el.Type(), types.Universe.Lookup("error").Type()) {
+						continue
+					}
+					if why := perEventError(g, el, depth+1); why != "" {
+						return why
+					}
+				}
+			}
+			return ""
+		case "errors.New":
+			if an.InLoop(x.Block()) {
+				return "an error made inside the tag loop"
+			}
+			return ""
+		}
+		if an.InLoop(x.Block()) {
+			return "the error of " + name + ", called once per tag"
+		}
+		return ""
+	}
+	return "an error of unknown origin (" + clip(an.PathOf(e), 40) + ")"
+}
+
+// collectorJoin: add is `c.add(…, errV, …)` on a local collector value c — a method with a
+// POINTER receiver that, whenever the error it is handed is non-nil, appends to a slice field of
+// the receiver — and the result is the later call `c.join()` of a pointer-receiver method of the
+// same object that returns errors.Join of that field. nil otherwise (a value receiver appends to
+// a copy: what was gathered is lost).
+func collectorJoin(host *ssa.Function, add *ssa.Call, errV ssa.Value) *ssa.Call {
+	m := an.StaticCallee(&add.Call)
+	if m == nil || !an.InModuleFn(m) || m.Signature.Recv() == nil || len(add.Call.Args) < 2 {
+		return nil
+	}
+	if _, isPtr := m.Signature.Recv().Type().(*types.Pointer); !isPtr {
+		return nil
+	}
+	obj := an.ResolveAlloc(add.Call.Args[0])
+	if obj == nil {
+		return nil
+	}
+	pi := -1
+	for i, a := range add.Call.Args {
+		if a == errV {
+			pi = i
+		}
+	}
+	if pi < 1 || pi >= len(m.Params) {
+		return nil
+	}
+	// the method's store into a field of its receiver, of append(that field, …)
+	field := -1
+	var store *ssa.Store
+	an.Instrs(m, func(in ssa.Instruction) {
+		st, ok := in.(*ssa.Store)
+		if !ok {
+			return
+		}
+		fa, ok := st.Addr.(*ssa.FieldAddr)
+		if !ok || fa.X != ssa.Value(m.Params[0]) {
+			return
+		}
+		if strings.HasPrefix(an.PathOf(st.Val), "append(recv."+fieldNameOf(fa)) {
+			field, store = fa.Field, st
+		}
+	})
+	if store == nil {
+		return nil
+	}
+	// … on every way through the method on which the error is non-nil
+	paths, ok := an.PathsTo(m, an.ReturnBlocks(m)[0], 256)
+	if !ok || len(an.ReturnBlocks(m)) != 1 {
+		// several returns: each path that does not pass the store must have found the error nil
+		paths = nil
+		for _, rb := range an.ReturnBlocks(m) {
+			ps, okp := an.PathsTo(m, rb, 256)
+			if !okp {
+				return nil
+			}
+			paths = append(paths, ps...)
+		}
+	}
+	for _, p := range paths {
+		if !an.Feasible(p) || p.Contains(store.Block()) {
+			continue
+		}
+		foundNil := false
+		for _, cd := range p.Conds() {
+			cd = an.NormCond(cd)
+			if bo, isB := cd.V.(*ssa.BinOp); isB && an.IsNilConst(bo.Y) && bo.X == ssa.Value(m.Params[pi]) && (bo.Op == token.EQL) == cd.True && (bo.Op == token.EQL || bo.Op == token.NEQ) {
+				foundNil = true
+			}
+		}
+		if !foundNil {
+			return nil
+		}
+	}
+	// the joining call on the same object
+	var join *ssa.Call
+	an.Instrs(host, func(in ssa.Instruction) {
+		call, ok := in.(*ssa.Call)
+		if !ok || call == add || len(call.Call.Args) != 1 || an.ResolveAlloc(call.Call.Args[0]) != obj {
+			return
+		}
+		j := an.StaticCallee(&call.Call)
+		if j == nil || !an.InModuleFn(j) || j.Signature.Recv() == nil || !types.Identical(call.Type(), types.Universe.Lookup("error").Type()) {
+			return
+		}
+		if _, isPtr := j.Signature.Recv().Type().(*types.Pointer); !isPtr {
+			return
+		}
+		okJ := len(an.ReturnBlocks(j)) > 0
+		for _, rb := range an.ReturnBlocks(j) {
+			rv := an.ReturnValues(an.LastInstr(rb).(*ssa.Return))
+			jc, isC := rv[0].(*ssa.Call)
+			if !isC || an.CalleeName(&jc.Call) != "errors.Join" || len(jc.Call.Args) != 1 {
+				okJ = false
+				continue
+			}
+			u, isU := jc.Call.Args[0].(*ssa.UnOp)
+			if !isU {
+				okJ = false
+				continue
+			}
+			fa, isFA := u.X.(*ssa.FieldAddr)
+			if !isFA || fa.X != ssa.Value(j.Params[0]) || fa.Field != field {
+				okJ = false
+			}
+		}
+		if okJ && an.Reachable(add.Block(), call.Block(), nil, nil) {
+			join = call
+		}
+	})
+	return join
 }
